@@ -207,6 +207,12 @@ func (s *Server) Shutdown() error {
 func (s *Server) handleConnection(conn net.Conn) {
 	defer s.wg.Done()
 	defer func() { _ = conn.Close() }()
+	defer func() {
+		// A panic while serving one connection must not take the authentication service down
+		if r := recover(); r != nil {
+			log.Printf("SASL connection handler panicked: %v", r)
+		}
+	}()
 
 	scanner := bufio.NewScanner(conn)
 
